@@ -94,53 +94,55 @@ type X struct {
 	st   *State
 	mode execMode
 
-	obls      []*Obligation
-	quants    []quant
-	witnesses []string
-	points    []point
-	pointSeen map[string]bool
-	rangeWitness map[string]bool
-	rangeClass   map[string]bool
-	witClass  map[string]string
-	curClass  string
-	heapSorts map[string]string
-	touched   map[string]bool // heap keys read or written (read-set computation)
-	written   map[string]bool
-	cellN     int
-	stack     []*ssa.Function
-	opaque    map[string]bool // functions referenced by symbol
-	usedOpq   map[string]*ssa.Function
-	externs   map[string]bool // extern models used
-	assumes   []string        // descriptions of assumptions (evidence)
-	strLits   map[string]string
-	siteCount map[string]int
-	interior  map[string]int
-	specs     *Specs
-	curFn     string // function under contract for obligation naming
-	noOblig   int    // >0: do not record obligations (inside summaries)
-	callDepth int
-	inline    bool // export mode: no definitions
-	unfold    map[string]bool
-	globObjs  map[*ssa.Global]string
-	wsMemo    map[*ssa.Function]*writeSet
-	wsBusy    map[*ssa.Function]bool
-	polarity  int
-	noFacts   int
-	entryState *State
-	topSpec    *FuncSpec // contract of the function under verification
-	prune      bool // drop branches the assumptions rule out (functions under contract)
-	pruned     int
-	usesOnly   map[string]bool
+	obls           []*Obligation
+	quants         []quant
+	witnesses      []string
+	points         []point
+	pointSeen      map[string]bool
+	rangeWitness   map[string]bool
+	rangeClass     map[string]bool
+	witClass       map[string]string
+	curClass       string
+	heapSorts      map[string]string
+	touched        map[string]bool // heap keys read or written (read-set computation)
+	written        map[string]bool
+	cellN          int
+	stack          []*ssa.Function
+	opaque         map[string]bool // functions referenced by symbol
+	usedOpq        map[string]*ssa.Function
+	externs        map[string]bool // extern models used
+	assumes        []string        // descriptions of assumptions (evidence)
+	strLits        map[string]string
+	siteCount      map[string]int
+	interior       map[string]int
+	specs          *Specs
+	curFn          string // function under contract for obligation naming
+	noOblig        int    // >0: do not record obligations (inside summaries)
+	callDepth      int
+	inline         bool // export mode: no definitions
+	unfold         map[string]bool
+	globObjs       map[*ssa.Global]string
+	wsMemo         map[*ssa.Function]*writeSet
+	wsBusy         map[*ssa.Function]bool
+	polarity       int
+	noFacts        int
+	entryState     *State
+	rsMemo         map[*ssa.Function]*writeSet
+	rsBusy         map[*ssa.Function]bool
+	topSpec        *FuncSpec // contract of the function under verification
+	prune          bool      // drop branches the assumptions rule out (functions under contract)
+	pruned         int
+	usesOnly       map[string]bool
 	abstractCallee map[string]bool
-	iaSeen     map[string]bool
-	peel       bool // try to peel loops without contract (functions under contract only)
-	retHook    func(v Val)
-	siteAsserts []SiteAssert
-	axiomVer    int
-	arbs        map[string]TV
-	axDone      map[string]bool
-	readPats   map[string]*regexp.Regexp
-	sideConds []sideCond
+	iaSeen         map[string]bool
+	peel           bool // try to peel loops without contract (functions under contract only)
+	retHook        func(v Val)
+	siteAsserts    []SiteAssert
+	axiomVer       int
+	arbs           map[string]TV
+	axDone         map[string]bool
+	readPats       map[string]*regexp.Regexp
+	sideConds      []sideCond
 }
 
 // sideCond is a program point outside the modelled subset; the lemma or VC
